@@ -22,6 +22,13 @@ Theorem C07_refused_when_nobody_listens :
 Proof. exact connect_refused_otherwise. Qed.
 Print Assumptions C07_refused_when_nobody_listens.
 
+(* a connect still waiting in the backlog never survives acceptor::close() *)
+Theorem C07_closing_an_acceptor_resets_its_backlog :
+  forall cx a w, d6_close_clears (cv cx) = true -> d24_close_resets_backlog (cv cx) = true ->
+  a_conns (get_tcp (fst (acc_close cx a w)) a) = [].
+Proof. exact acceptor_close_resets_the_backlog. Qed.
+Print Assumptions C07_closing_an_acceptor_resets_its_backlog.
+
 Theorem C07_repairs_in_place :
   d12_accept_visible_ep current = true /\ d13_acceptor_close current = true.
 Proof. split; reflexivity. Qed.
